@@ -43,10 +43,10 @@ def short(n):
     return s if len(s) < 80 else s[:80] + '..'
 
 
-def round_once(rep, db):
+def round_once(rep, db, only_prefix=None):
     nsites = 0
     for f in db.fns.values():
-        if f['id'].startswith(CORE):
+        if f['id'].startswith(CORE) or (only_prefix and not f['id'].startswith(only_prefix)):
             continue
         du = None
         ordn = {}
@@ -68,5 +68,5 @@ def round_once(rep, db):
                 rep.ob('R-SIGN-BEFORE-ROUND', key, not sg,
                        'the dividend of a rounding helper has lost its sign (%s): directed rounding modes would round the wrong way' % '; '.join(sg),
                        site=span_str(blk.get('tspan')))
-    rep.floor('R-ROUND-ONCE', 8)
+    rep.floor('R-ROUND-ONCE', 1 if only_prefix else 8)
     return nsites
